@@ -12,867 +12,901 @@ Definition show_fres (r : fres) : string :=
   end.
 Definition check (rs : list rune) : string := digest (show_fres (format_res rs)).
 Definition full (rs : list rune) : string := show_fres (format_res rs).
-Eval vm_compute in ("<<<M1733>>>" ++ check (runes_of_ascii "  packet falsey
-{
-char[7 ]  Foo
-@calculatedFrom( 
-""CRC32"" ) ,
-@tag( 
-	    //
-  	10
-
-)
-	u8 Packet  `" ++ [233]%N ++ runes_of_ascii "` , 
-repeat
-    stringy ,  @lengthOf( // a // b
-  float )
-tag
-	{	repeat
-    u8x {
-int16
-
-charz
-	@lengthOf(trueish
-	)
-,  //	t
-		repeat
-string calculatedFrom
-
-,
-
-charz@calculatedFrom(
-    ""a\""b"") `line1
-line2`
-,
-
-}	,
-u64
-	MetaDataX
-@calculatedFrom(""" ++ [128512]%N ++ runes_of_ascii """)
-`" ++ [233]%N ++ runes_of_ascii "` ,  rootA
-	    // packet A { u8 x, }
-{ repeat
-
-u64 BodyLength
-	`" ++ [233]%N ++ runes_of_ascii "`
-    ,
-
-    pack  @calculatedFrom( //x
-""{,}"")	`" ++ [28040; 24687; 31867; 22411]%N ++ runes_of_ascii "`,  repeat 	 // c
-	x
-    charz	,  }, 
-// a // b
-char[]
-packetx,
-} 
-,  // `tick` ""quote"" 'q'
-
-  calculatedFrom
-
-    , u
-
-x_y_z,
-    repeat	int	i64_, @leftPad
-(
-' ' )
-
-u32  T
-    @calculatedFrom(  ""{,}"" ) ,	repeat metadata  ,  }
-root
-    packet
-
-chars 
-{char[
-65535  ]pack  @lengthOf( As )
-
-    `tab	here`  ,
-
-char[
-255 ] msg_type
-	`// not a comment` ,@calculatedFrom(
-""// no comment""
-	)
-
-@tag(	//	t
-      0
-)
-@tag(10  )  repeat
-	Header
-{ char[]
-        // @lengthOf(
-// " ++ [27880; 37322]%N ++ runes_of_ascii "
-i64_, repeat
-
-T //x
-      ``
-    ,
-
-    match
-uint8x
-as
-
-    i64_	{ 00// `tick` ""quote"" 'q'
-	: _x
-    ,
-	65535
-:  //
-  Z9_ ,
-""1""  :
-u8x , 007 :
-    Z9_
-,  255
-
-:  matchKey""1"" :crc
-, } 
-,  } 
-,@calculatedFrom( ""packet""	)
-
-match int as
-
-    x_y_z
-    {	0123456789
-:
-
-Logon
-
-// @lengthOf(
-    ,
-	//	t
-
-[
-0123456789 ,
-""it's"" ]
-
-:
-    int ,
-[  ""a	b"" ,
-""CRC32""
-    ,
-
-    0,
-    4294967296 
-, 
-"""" 
-] :	pack 
-, 0: 
-u
-
-    , }
-	, 
-match  // @lengthOf(
-	  string_
-	as
-int{
-0 :repeatCount[
-
-    ""abc""
-
-    ] :	// " ++ [27880; 37322]%N ++ runes_of_ascii "
-  	float 007	: msg_type
-
-    , [
-	""a\""b""
-
-] :charz
-	,} 
-,
-
-i16 MetaDataX `say ""hi""` ,
-repeat
-u	`tab	here`  ,
-
-repeat falsey  { repeat
-    i8
-    lengthOf	`a\`
-    ,
-    repeatCount
-
-@lengthOf(
-    o )	`{ , }`
-
-    ,},	} packet
-	rootA
-	{
-calculatedFrom //	t
-  @calculatedFrom(
-""x y""
-
-) 
-,
-
-char
-
-Pad
-
-    @calculatedFrom(
-
-    ""a\""b""
-	)
-
-`" ++ [233]%N ++ runes_of_ascii "`
-	, @leftPad(
-'\x00'
-) 
-repeat float64 tag, 
-      // " ++ [27880; 37322]%N ++ runes_of_ascii "
-    	@calculatedFrom( ""1""
-) 
-repeat
-    Foo  ,
-
-    }  // " ++ [27880; 37322]%N)).
-Eval vm_compute in ("<<<M156>>>" ++ check (runes_of_ascii "packet
-A { @rightPad ( '0' ) repeat	i8i8
-    { zchar[ 007 ]
-    packetx,
-    metadata `" ++ [28040; 24687; 31867; 22411]%N ++ runes_of_ascii "` ,	repeat float64  T ,}, @tag(0)Z9_ { int
-@lengthOf( tag
-)`line1
-line2`
-, repeat i8i8 // packet A { u8 x, }
-{  zchar[  00 ]stringy
-,
-repeat f32a{ match i64_ //
-as
-    string_ {[ 255 , ""{,}"" , 0123456789 ]
-: x_y_z
-, """ ++ [233]%N ++ runes_of_ascii "t" ++ [233]%N ++ runes_of_ascii """ : A
-, ""`tick`"" : len ,} , } ,
-    //
-    repeat u8x {u16 Z9_
-@calculatedFrom(""" ++ [128512]%N ++ runes_of_ascii """ ) `line1
-line2` ,f32 matchKey
-    ,} ,// " ++ [27880; 37322]%N ++ runes_of_ascii "
-float64 u8x `
-`,
-    },//
-} , // `tick` ""quote"" 'q'
-a1	{ repeat
-    // trailing space 
-    zchar[ 007
-] Foo `two words`
-,f32a	@calculatedFrom( """ ++ [28040; 24687]%N ++ runes_of_ascii """// trailing space 
-) ,int64 i64_  @calculatedFrom( // trailing space 
-""`tick`"" ) , } ,
-    @lengthOf(
-    // c
-    Header )	f32
-stringy @calculatedFrom(
-""x y"" )`say ""hi""` , Foo , float64
-BodyLength@calculatedFrom( // " ++ [27880; 37322]%N ++ runes_of_ascii "
-""packet"") ,
-    uint32
-// packet A { u8 x, }
-//
-int
-//
-//x
-, } packet string_{ @tag( 4294967296
-) repeat u
-`two words` , repeat zchar[ 0 ]
-BodyLength
-, @tag( 255 )/// triple
-int `line1
-line2` ,	uint8x`it's`,@tag(
-65535 )
-int8
-    metadata
-`" ++ [233]%N ++ runes_of_ascii "` ,/// triple
-match
-options1
-//x
-// " ++ [128512]%N ++ runes_of_ascii " emoji
-as
-    float// packet A { u8 x, }
-{ 3: f32a , """ ++ [28040; 24687]%N ++ runes_of_ascii """
-    : charz
-,}
-,match uint8x	as
-string_ { ""CRC32"" //x
-:
-x
-, } , uint8	packetx`crlf
-line` ,
-@leftPad (
-)
-    zchar[
-0
-] Foo `say ""hi""`, }
-")).
-Eval vm_compute in ("<<<M128>>>" ++ check (runes_of_ascii "root
-packet // " ++ [27880; 37322]%N ++ runes_of_ascii "
-crc
-    {	@lengthOf(	As
-)@calculatedFrom(""\" ++ [233]%N ++ runes_of_ascii """
-    ) zchar[ 4294967296 ]MetaDataX `doc` ,/// triple
-rootA @calculatedFrom( ""it's"" )	,@tag( 65535
-    ) @tag( // c
-7 )@tag( 00
-//
-// c
-) len @lengthOf( A ) `two words` ,
-// trailing space 
-// " ++ [128512]%N ++ runes_of_ascii " emoji
-string	rootA@lengthOf( pack
-// trailing space 
-//	t
-) ,
-// " ++ [128512]%N ++ runes_of_ascii " emoji
-// trailing space 
-repeat zchar ,
-@calculatedFrom( ""abc"" )@leftPad ('\x00' ) @rightPad
-( )match x_y_z
-    as Z9_{
-""it's""
-    :
-Logon//x
-, ""x y"" : Packet,""abc""
-: trueish 4294967296 // @lengthOf(
-:
-    repeatCount """ ++ [128512]%N ++ runes_of_ascii """:  x_y_z
-} , char[ 10 // @lengthOf(
-]
-    stringy	`it's`
-, @leftPad (
-'\x00' )
-rootA @lengthOf(  i64_  )
-    , } MetaData falsey {
-Packet repeatCount `tab	here` ,
-}MetaData string_ {
-    float64 roots `line1
-line2` , char
-As //
-`
-` , zchar[ 65535 ]falsey`a\` ,A
-    T , _x metadata, } packet
-_x // packet A { u8 x, }
-{zchar[255 ] string_@lengthOf(
-//	t
-// @lengthOf(
-u128 ) `{ , }`	,
-}root packet Packet
-    {repeat // " ++ [128512]%N ++ runes_of_ascii " emoji
-lengthOf , }")).
-Eval vm_compute in ("<<<M107>>>" ++ check (runes_of_ascii "packet falsey { i64_ ,	charz  {
-match Packet  as Pad { ""\n"" :Packet
-    , ""// no comment"" // " ++ [128512]%N ++ runes_of_ascii " emoji
-:
-f32a// `tick` ""quote"" 'q'
-, [
-    /// triple
-    3  ,4294967296,
-    10 ,//
-7 , 10	]
-: u
-, // trailing space 
-""`tick`"": u8x
-,
-[ 7 , ""it's"" ]:Packet, 0 : len
-    //
-    , }
-    , }, /// triple
-@lengthOf(	f32a) char[ 3 ]options1
-    @lengthOf(
-Pad)
-, zchar[ 0123456789 ]// trailing space 
-T ``
-,
-} packet
-Pad
-{
-    // c
-    o roots `{ , }` // " ++ [128512]%N ++ runes_of_ascii " emoji
-, }packet f32a {
-_x//
-@calculatedFrom(	""x y"") //x
-,@tag( 65535
-) //	t
-char pack @lengthOf( zchar  ) ,repeat //
-int64 falsey  ,repeat len {match A
-    as rootA {[ 42,  ""\n"" ]:
-Z9_ , }
-,repeat i16
-A , repeat zchar[ 65535 ] tag `
-` ,
-f64 float
-    @lengthOf( f32a ) ``  ,
-// `tick` ""quote"" 'q'
-// packet A { u8 x, }
-} , x
-    u8x
-, @tag(  42	) repeat As Packet	, @lengthOf( Pad
-    )repeat
-    f64 rootA ,// @lengthOf(
-}")).
-Eval vm_compute in ("<<<M141>>>" ++ check (runes_of_ascii "options // @lengthOf(
-{zchar = char[] Z9_	='0' ;
-} options
-{ asx = char[] }root packet leftPad { T @lengthOf(
-    f32a//
-)
-, } //
-root
-//x
-// @lengthOf(
-packet calculatedFrom {
-u
-    {//	t
-char[] // packet A { u8 x, }
-T `" ++ [233]%N ++ runes_of_ascii "`	,	match stringy /// triple
-as //	t
-chars { [
-    0123456789 ]
-: T ,
-// `tick` ""quote"" 'q'
-// " ++ [27880; 37322]%N ++ runes_of_ascii "
-}	, uint16 a1 @lengthOf( x) , string
-chars `two words` ,
-} , @calculatedFrom(
-    ""x y"")char[]
-// " ++ [27880; 37322]%N ++ runes_of_ascii "
-// " ++ [128512]%N ++ runes_of_ascii " emoji
-body @lengthOf(
-lengthOf )
-    /// triple
-    ,
-    @lengthOf(	A	)rootA
-,	@lengthOf(i64_ ) // packet A { u8 x, }
-repeat f32a { lengthOf
-    // " ++ [128512]%N ++ runes_of_ascii " emoji
-    charz // a // b
-`" ++ [28040; 24687; 31867; 22411]%N ++ runes_of_ascii "`, }
-    // packet A { u8 x, }
-    ,
-match tag as
-//x
-//	t
-T { [
-3
-] : falsey , }	,zchar[
-    00
-    ] charz@lengthOf(
-    Pad
-) ,
-@tag( 3	) lengthOf{ i16 As ,
-} ,
-} root
-packet	body{ }
-")).
-Eval vm_compute in ("<<<M1876>>>" ++ check (runes_of_ascii "root packet i64_ {
-    trueish,
-    @calculatedFrom(""abc"")
-    @tag(7)
-    // c
-    int16 asx,
-    @calculatedFrom(""a\\"")
-    float32 crc @lengthOf(Foo),
-    @tag(42)
-    zchar[7] asx @lengthOf(calculatedFrom) `// not a comment`,//
-    repeat zchar[1] As,
-    chars `two words`,
-    @calculatedFrom(""1"")
-    @tag(0123456789)
-    @leftPad('0')
-    repeat char[] BodyLength `tab	here`,
-}
-
-MetaData u128 {
-    u16 i64_,
-    float32 asx `two words`,
-    i64 leftPad,
-    zchar[00] _x,
-}
-
-MetaData chars {
-    Foo crc `say ""hi""`,
-    uint8 u `two words`,
-    f32 pack `crlf
-    line`,
-    string _x `" ++ [233]%N ++ runes_of_ascii "`,
-}
-
-packet x_y_z {
-}
-
-options {
-    calculatedFrom = ""CRC32""
-    crc = uint16;
-    u = false
-    Foo = char
-}// " ++ [128512]%N ++ runes_of_ascii " emoji")).
-Eval vm_compute in ("<<<M1238>>>" ++ check (runes_of_ascii "// top
+Eval vm_compute in ("<<<M1352>>>" ++ check (runes_of_ascii "// top
 options
     // c0
-{
-    // c1
-zchar
-    // c2
+{ // c1
+StringPrefixLenType // c2a
+  // c2b
 =
     // c3
-true
-    // c4
+u8 // c4a
+  // c4b
+; ArrayPrefixLenType // c6
+= // c7
+u32 // c8
 ;
-    // c5
-Pad
-    // c6
-=
-    // c7
-char[
-    // c8
-00
     // c9
-]
+FixedStringPadFromLeft
     // c10
-a1
-    // c11
-=
-    // c12
-uint32
-    // c13
-BodyLength
-    // c14
+= true // c12a
+  // c12b
+; // c13
+FixedStringPadChar // c14
 =
     // c15
-true
-    // c16
-;
-    // c17
-}
-    // c18
-root
-    // c19
-packet
+' ' ; } packet // c19
+Leg
     // c20
-T
-    // c21
-{
-    // c22
-@lengthOf(
+{ // c21a
+  // c21b
+} packet
     // c23
-repeatCount
+Heartbeat
     // c24
-)
-    // c25
-@tag(
-    // c26
-1
-    // c27
-)
-    // c28
-@calculatedFrom(
-    // c29
-""a	b""
-    // c30
-)
+{ // c25
+zchar[ // c26a
+  // c26b
+6 ] msgKind // c29a
+  // c29b
+, // c30a
+  // c30b
+@rightPad
     // c31
-string
-    // c32
-stringy
-    // c33
-@calculatedFrom(
-    // c34
-""\n""
-    // c35
-)
-    // c36
-`u8 x,`
+( '0' ) // c34
+char[ // c35a
+  // c35b
+3 // c36a
+  // c36b
+]
     // c37
+Qty , zchar[
+    // c40
+9 // c41a
+  // c41b
+] // c42
+Side2 , i8
+    // c45
+Acct // c46
+, // c47a
+  // c47b
+} // c48
+packet // c49a
+  // c49b
+Logout // c50
+{ // c51a
+  // c51b
+int8 // c52
+x
+    // c53
+, // c54a
+  // c54b
+} // c55
+packet
+    // c56
+Order // c57a
+  // c57b
+{ char[]
+    // c59
+Acct ,
+    // c61
+zchar[ // c62a
+  // c62b
+8 // c63
+] count // c65a
+  // c65b
 ,
-    // c38
-}
-    // c39
-")).
-Eval vm_compute in ("<<<M1695>>>" ++ check (runes_of_ascii "options {
-    LittleEndian = false;
-    ArrayPrefixLenType = u8;
-    FixedStringPadFromLeft = true;
-    FixedStringPadChar = '0';
-}
-
-packet Heartbeat {
-    string lastPx,
-    uint8 Qty,
-    i64 Acct,
-    char[4] Ref,
-}
-
-packet Fill {
-    uint8 Ref,
-    Heartbeat,
-    f32 OrderId,
-    repeat f32 x,
-}
-
-root packet Order {
-    zchar[2] OrderId,
-    zchar[2] Acct,
-    zchar[1] Note,
-    zchar[9] Qty,
-    string price,
-    string tag7,
-    u32 x,
-    match x as Body {
-        123 : Fill,
-        112 : Heartbeat,
-    },
-    u32 seqNo @calculatedFrom(""CR\
-        C32""),
-}")).
-Eval vm_compute in ("<<<M40>>>" ++ check (runes_of_ascii "packet stringy
-//	t
-//
-{ repeat T// trailing space 
-{ u64 lengthOf
-`tab	here`  ,
+    // c66
+u32 // c67
+OrderId
+    // c68
+, uint8 lastPx // c71a
+  // c71b
+,
+    // c72
+u16
+    // c73
+clOrdID // c74
+,
+    // c75
+zchar[
+    // c76
+7
+    // c77
+] // c78a
+  // c78b
+Note // c79
+, } // c81a
+  // c81b
+root
+    // c82
+packet // c83
+Reject // c84a
+  // c84b
+{ // c85
+@leftPad ( ' ' ) // c89a
+  // c89b
+char[
+    // c90
+8 ]
+    // c92
+Side2 // c93
+, // c94a
+  // c94b
+i8 // c95a
+  // c95b
+clOrdID // c96
+, // c97a
+  // c97b
 repeat
-_x { match calculatedFrom as Header { [""" ++ [233]%N ++ runes_of_ascii "t" ++ [233]%N ++ runes_of_ascii """
-    ] : _x  ,// @lengthOf(
-[""packet"" ] :
-MetaDataX , 255 : u128,42 :
-A
-""// no comment"" : body
-    , }
-, repeat crc Foo, charz
+    // c98
+f32
+    // c99
+x , // c101
+u32 // c102a
+  // c102b
+lastPx , // c104
+match lastPx as
+    // c107
+Body
+    // c108
+{ // c109a
+  // c109b
+[
+    // c110
+30 ,
+    // c112
+147 ] : // c115a
+  // c115b
+Heartbeat , 134 // c118a
+  // c118b
+: // c119a
+  // c119b
+Leg // c120
+, // c121
+183 // c122
+:
+    // c123
+Logout
+    // c124
+, // c125a
+  // c125b
+40 // c126
+: // c127a
+  // c127b
+Order
+    // c128
+, // c129a
+  // c129b
+}
+    // c130
+, u16 // c132a
+  // c132b
+Ref // c133
+@calculatedFrom( // c134a
+  // c134b
+""CRC32"" ) // c136a
+  // c136b
+, // c137
+} // c138
+")).
+Eval vm_compute in ("<<<M53>>>" ++ check (runes_of_ascii "root
+packet u {
+    char[007 ]x_y_z
+`two words` , int16 u8x
+    @calculatedFrom( ""packet""
+    )
+    // @lengthOf(
     ,
-}	,zchar[ 1
-    ]i8i8@calculatedFrom( ""x y"" ),  uint8x
+    float64
+    falsey
+@calculatedFrom( ""\" ++ [233]%N ++ runes_of_ascii """ ) `u8 x,`
+    ,
+    trueish @calculatedFrom(
+    """ ++ [233]%N ++ runes_of_ascii "t" ++ [233]%N ++ runes_of_ascii """ )
+`tab	here` , @tag( 1	) repeat char[
+4294967296 ]
+    // " ++ [128512]%N ++ runes_of_ascii " emoji
+    u , match
     // " ++ [27880; 37322]%N ++ runes_of_ascii "
-    Pad
-`line1
-line2` , } ,
-@lengthOf( u )
-char[ //x
-4294967296 ]crc, @tag(  007 //x
-)repeatCount ,
-repeat
+    i8i8
+    //
+    as // " ++ [128512]%N ++ runes_of_ascii " emoji
+o
+    { [""a\\""
+    ]:
+    matchKey,[ 0123456789
     //x
-    char[] Header, @rightPad ( )char[] string_ `a\` ,
-    }
-")).
-Eval vm_compute in ("<<<M307>>>" ++ check (runes_of_ascii "  packet	charz	{
-// " ++ [27880; 37322]%N ++ runes_of_ascii "
+    , ""x y""  , 0 ,
 /// triple
-repeat // c
-string int `" ++ [28040; 24687; 31867; 22411]%N ++ runes_of_ascii "` , @calculatedFrom( ""it's"" ) @tag(
-255 )  f64 // a // b
-asx
-,
-string
-T `doc` ,zchar[
-007 ]tag @lengthOf( //
-Z9_ )`// not a comment` , }
-options{ u= u16; }
-MetaData
-    chars
-    { i16 falsey , f64 pack,
-    char[  1
-    ]
-asx
-`it's`, char[] body ,
-// `tick` ""quote"" 'q'
-//x
-}packet leftPad { @rightPad
-(
+/// triple
+00 , ""a	b"" ,""{,}"" , // a // b
+""{,}"" ,
+007 ] :
+u8x,
+255 : u128 , [
+""" ++ [28040; 24687]%N ++ runes_of_ascii """
+    , 0123456789	,65535 ,
+    // a // b
+    ""\n"" ] : _x, 7 :
+falsey} , @leftPad ( )// " ++ [128512]%N ++ runes_of_ascii " emoji
+charz @lengthOf(A ) , // `tick` ""quote"" 'q'
+} root packet stringy
+{
+    repeat
+    MetaDataX {float32
+T , string
+    x_y_z `a\`
+, repeat	_x  zchar`u8 x,` , }
+    , } packet Foo {
+    @lengthOf(  roots
+    ) calculatedFrom a1, zchar[ 0123456789]	_x,
+// @lengthOf(
+// trailing space 
+match //
+roots as MetaDataX // c
+{ /// triple
+42 :	_x ,
+3// a // b
+:msg_type  7 : a1, """"	:i8i8 , //x
+[ """ ++ [233]%N ++ runes_of_ascii "t" ++ [233]%N ++ runes_of_ascii """ ]: i8i8 , 00 : leftPad ,
+    } , @calculatedFrom( // @lengthOf(
+"""" ) char[  00 // c
+]
+Foo
+@lengthOf( uint8x) ,  f32 chars , }packet
+    metadata
+    //	t
+    { } MetaData i64_ // packet A { u8 x, }
+{ lengthOf options1 ,
 // @lengthOf(
 //x
-)
-repeat Pad float
-    `{ , }`
-,
-    }	options {
-    roots= true;  }
+a1 A,
+    x Header ,
+    }
 ")).
-Eval vm_compute in ("<<<M0>>>" ++ check (runes_of_ascii "packet leftPad// trailing space 
-{@tag( 10 )
-    @tag( 007 ) @lengthOf(	a1 )
-// a // b
-//
-repeat metadata
-    ,
-} // " ++ [128512]%N ++ runes_of_ascii " emoji
-options
-    // @lengthOf(
-    { lengthOf
-= """ ++ [128512]%N ++ runes_of_ascii """	;
-}  packet T
-    // " ++ [27880; 37322]%N ++ runes_of_ascii "
-    { A
-{
-//
-// `tick` ""quote"" 'q'
-tag@calculatedFrom(""abc"")
-, }
-    , @lengthOf( matchKey
-    ) string	Header @lengthOf( metadata
-) ,leftPad
-    // trailing space 
-    @calculatedFrom(
-""a\""b"" )`crlf
-line`,}
-")).
-Eval vm_compute in ("<<<M1679>>>" ++ check (runes_of_ascii "packet crc {
-    u128 packetx,// " ++ [128512]%N ++ runes_of_ascii " emoji
-    match roots as falsey {
-        0123456789 : Header,
-        ""packet"" : Z9_,
-        3 : A,
-        // trailing space 
-        // a // b
-        ""a	b"" : roots,
-        10 : _x,
+Eval vm_compute in ("<<<M1816>>>" ++ check (runes_of_ascii "// a // b
+packet stringy {
+    string zchar,
+    repeat T,
+    match u as charz {
+        007 : float,
+        ""\" ++ [233]%N ++ runes_of_ascii """ : Logon,
+        ""a	b"" : pack,
     },
-    @tag(255)
-    match calculatedFrom as o {
-        255 : string_,
-        """ ++ [28040; 24687]%N ++ runes_of_ascii """ : i64_,
+    match uint8x as roots {
+        1 : len,
     },
 }
 
-MetaData T {
-    float64 u,
+packet zchar {
+    roots options1 `// not a comment`,
+    int64 As,
+    i16 float @lengthOf(falsey) `a\`,
+    int64 msg_type `tab	here`,
+    @tag(0)
+    repeat uint8x,
+    @lengthOf(x)
+    repeat metadata,
+    zchar[0] int,
+    uint64 zchar,
+    zchar[7] msg_type,
+    @calculatedFrom(""" ++ [28040; 24687]%N ++ runes_of_ascii """)
+    crc,
 }
 
-packet Pad {
-}")).
-Eval vm_compute in ("<<<M1637>>>" ++ check (runes_of_ascii "
-
-  packet
-zchar 
-{ @lengthOf( a1 
-    // " ++ [128512]%N ++ runes_of_ascii " emoji
-//	t
-)i64_
-@lengthOf(
-Header )`" ++ [28040; 24687; 31867; 22411]%N ++ runes_of_ascii "`
-
-    , charz `" ++ [233]%N ++ runes_of_ascii "`
-
-    ,
-
-    char[
-
-    007 ]
-i64_
-, tag
-
-{ u16 matchKey	// " ++ [27880; 37322]%N ++ runes_of_ascii "
-		, match
-Pad
-    as lengthOf
-	{ [
-
-    ""CRC32""	, 
-""abc""  ]
-:Packet ,},  } ,
-
+root packet zchar {
+    repeat leftPad,
 }
-	MetaData
-    body {char[ 
-10
 
-] 
-u128 `doc` , 
-
-    /// triple
-
-	//x
-
-} //x
-")).
-Eval vm_compute in ("<<<M79>>>" ++ check (runes_of_ascii "packet	Pad //
-{ u32 i64_
-@lengthOf(u8x) `tab	here` , T,
-@tag(
-1) @calculatedFrom(	""CRC32""
-)
-    @leftPad ()
-    match stringy as lengthOf	{[ 255  ,	7
-    ,
-""CRC32""
-,""a	b"" , """ ++ [233]%N ++ runes_of_ascii "t" ++ [233]%N ++ runes_of_ascii """ ,// c
-""a\""b""
-    , ""\n"" ]: falsey  , /// triple
-} ,string i8i8// trailing space 
-@calculatedFrom( """ ++ [128512]%N ++ runes_of_ascii """
-    ) ,packetx, } // c")).
-Eval vm_compute in ("<<<M1593>>>" ++ check (runes_of_ascii "packet tag {
+packet A {
+    @lengthOf(string_)
+    x @lengthOf(options1) `two words`,
+    string len,
 }
 
 packet falsey {
-    string charz @lengthOf(zchar),
-    string u @calculatedFrom(""" ++ [233]%N ++ runes_of_ascii "t" ++ [233]%N ++ runes_of_ascii """) `// not a comment`,
-    @leftPad('0')
-    char[] leftPad @calculatedFrom(""a	b"") `// not a comment`,
-    @calculatedFrom(""`tick`"")
-    @lengthOf(roots)
-    repeat MetaDataX,
-}")).
-Eval vm_compute in ("<<<M1803>>>" ++ check (runes_of_ascii "options
+    i64_ @calculatedFrom(""{,}""),
+    repeat string chars,
+    zchar[7] calculatedFrom,
+    Header {
+        char u `two words`,
+        repeat char[] tag `say ""hi""`,
+        Z9_ @lengthOf(T) `line1
+                line2`,
+    },
+    msg_type @calculatedFrom(""// no comment""),
+    @rightPad('\x00')
+    @lengthOf(asx)
+    falsey,
+}// packet A { u8 x, }")).
+Eval vm_compute in ("<<<M176>>>" ++ check (runes_of_ascii "
+packet i8i8 { @tag( 0 ) int32
+leftPad `it's`
+, repeat char[]Header`crlf
+line`
+, @calculatedFrom( ""\" ++ [233]%N ++ runes_of_ascii """ )/// triple
+repeat
+    uint8 float , @rightPad
+('\x00' ) char[] zchar@lengthOf(
+// a // b
+//x
+leftPad )
+`
+` , Z9_ ,
+@lengthOf(
+x ) match As as
+    tag {	""a	b""  :
+string_ [
+10 , 7 , ""1"" , 255
+,
+3
+    , 42 ,
+    //
+    0123456789, """ ++ [128512]%N ++ runes_of_ascii """ ] :x_y_z ,""CRC32""
+: Z9_  , 00
+    // c
+    : Logon
+    ,
+} , @tag(007) o {
+    char
+    Packet
+@lengthOf(
+    //	t
+    repeatCount
+) , } , @lengthOf(
+// " ++ [27880; 37322]%N ++ runes_of_ascii "
+/// triple
+pack
+) float64 rootA `two words`
+    ,	repeat char[] BodyLength ,}
+packet Z9_{ match
+    // packet A { u8 x, }
+    As
+as
+    a1{ //
+0: trueish // `tick` ""quote"" 'q'
+,} ,
+/// triple
+// " ++ [27880; 37322]%N ++ runes_of_ascii "
+} root packet u8x {
+/// triple
+// " ++ [128512]%N ++ runes_of_ascii " emoji
+repeat
+string Logon `tab	here` , // " ++ [128512]%N ++ runes_of_ascii " emoji
+}	options { _x
+=
+    ""packet""
+;f32a =007 } packet i8i8 {@calculatedFrom( ""CRC32"" )
+A @lengthOf(
+a1
+)
+, } 	 ")).
+Eval vm_compute in ("<<<M168>>>" ++ check (runes_of_ascii "options
+//x
+// @lengthOf(
 {
-	FixedStringPadChar= 
-'0'  ;
+    Foo =""// no comment""
+/// triple
+//	t
+; }
+packet float {
+} packet
+    len { @lengthOf(
+    _x ) stringy{
+    metadata	@calculatedFrom( ""a\\"" )
+, } ,
+//x
+//
+}	packet asx {
+@tag( 0 ) repeat float64
+A`say ""hi""` ,
+//
+// trailing space 
+i16 int
+    `say ""hi""` , @calculatedFrom( """ ++ [128512]%N ++ runes_of_ascii """) lengthOf Header `two words` ,
+f32a
+    zchar , @rightPad
+    ( '0'
+)repeat string_
+    // packet A { u8 x, }
+    chars ``  , @tag( 4294967296)
+    @calculatedFrom( ""a	b"" )repeat
+    msg_type,  @leftPad( ) repeat f64 _x ,	repeat As { Logon @lengthOf(
+calculatedFrom) `two words` ,
+    repeat u64 o `u8 x,`	, } , @calculatedFrom(
+""packet"" ) repeat // @lengthOf(
+uint8 u ,} packet
+uint8x{@leftPad ( '0'
+    )
+//	t
+//x
+zchar[
+// packet A { u8 x, }
+// " ++ [27880; 37322]%N ++ runes_of_ascii "
+255
+    ]	metadata `a\`
+    ,//
+} // `tick` ""quote"" 'q'")).
+Eval vm_compute in ("<<<M1504>>>" ++ check (runes_of_ascii "
+// top
+options 
+    // c0
+  {  
+      // c1
+zchar 
+
+    // c2
+  	= 
+        // c3
+
+	true
+    // c4
+      ; 
+  // c5
+	  Pad 
+	    // c6
+=
+    // c7
+char[  
+  // c8
+	00 
+
+// c9
+  ]
+// c10
+a1
+	// c11
+	= 
+  // c12
+	uint32 
+      // c13
+
+BodyLength 
+    // c14
+	=
+    // c15
+
+true 
+	// c16
+
+  ; 
+
+    // c17
+	} 
+
+    // c18
+  root
+    // c19
+    packet 
+        // c20
+  T
+        // c21
+      { 
+        // c22
+    @lengthOf(
+// c23
+	repeatCount 
+// c24
+)
+    // c25
+@tag(
+
+// c26
+
+1  
+  // c27
+
+)
+
+    // c28
+	@calculatedFrom(
+// c29
+	""a	b"" 
+// c30
+  ) 
+// c31
+      string
+    // c32
+stringy
+
+// c33
+@calculatedFrom(
+    // c34
+    ""\n"" 
+  // c35
+	  )
+// c36
+
+`u8 x,`
+
+    // c37
+    , 
+	    // c38
+} 
+    // c39")).
+Eval vm_compute in ("<<<M1411>>>" ++ check (runes_of_ascii "packet tag {
+    @calculatedFrom(""x y"")
+    lengthOf {
+        options1 `
+                `,
+    },
+    @tag(7)
+    int {
+        //x
+        // " ++ [27880; 37322]%N ++ runes_of_ascii "
+        char[007] calculatedFrom @lengthOf(metadata),
+        tag @lengthOf(falsey),
+        f32 calculatedFrom `{ , }`,
+        i8i8 {
+            string i64_ @lengthOf(asx) `it's`,
+            u @calculatedFrom(""\n""),
+        },
+    },
+    @calculatedFrom(""abc"")
+    @leftPad(' ')
+    uint64 calculatedFrom,// " ++ [27880; 37322]%N ++ runes_of_ascii "
+}
+
+packet o {
+    Header,
+    @lengthOf(i8i8)
+    float32 Pad,
+    char[42] leftPad @calculatedFrom(""""),
+    @tag(255)
+    body u,
+}
+
+packet lengthOf {
+    @tag(255)
+    char[0123456789] o `
+        `,
+}")).
+Eval vm_compute in ("<<<M206>>>" ++ check (runes_of_ascii "//x
+root
+    // " ++ [128512]%N ++ runes_of_ascii " emoji
+    packet
+// `tick` ""quote"" 'q'
+/// triple
+float{options1 A
+,@tag(
+42 )
+    u8x{ tag //x
+@calculatedFrom(	""\" ++ [233]%N ++ runes_of_ascii """) // packet A { u8 x, }
+`tab	here` ,
     }
+    , int16 asx ,
+    @lengthOf( o
+    )
+@rightPad( ) repeat int
+/// triple
+/// triple
+Logon,@calculatedFrom(""// no comment"" )  @leftPad('\x00')
+    @rightPad('0'	)	zchar[ 65535 //x
+] o `
+`
+    ,
+    repeat As{ //x
+repeat uint16 o ,repeat
+char[ // trailing space 
+1
+    ]o ,
+u128
+metadata	, repeat char[7	] Header ,
+    } , @tag( 0123456789
+    ) a1 tag
+    , float32 asx ,
+    repeat // packet A { u8 x, }
+len
+``
+    ,}
+")).
+Eval vm_compute in ("<<<M1888>>>" ++ check (runes_of_ascii "
+packet
+	charz{ 
+        // " ++ [27880; 37322]%N ++ runes_of_ascii "
+/// triple
+      repeat	// c
+
+	string
+	int	`" ++ [28040; 24687; 31867; 22411]%N ++ runes_of_ascii "` 
+,
+@calculatedFrom(""it's"")@tag(
+	255) f64  // a // b
+	  asx
+
+    ,	string T
+    `doc`
+
+    ,
+zchar[
+
+007
+    ]
+    tag	@lengthOf(  //
+  	Z9_ ) 
+`// not a comment` 
+,
+} options  {	u  = u16  ;
+
+} 
+MetaData
+
+chars
+    {i16 falsey, 
+f64 pack
+,char[
+    1	] asx `it's`
+	,	char[]
+	body
+,  
+      // `tick` ""quote"" 'q'
+
+  //x
+	}packet 
+leftPad
+	{
+@rightPad 
+( 
+    // @lengthOf(
+    //x
+	)
+repeat Pad
+float
+
+`{ , }`, }
+
+    options
+    { roots =
+true
+
+; }")).
+Eval vm_compute in ("<<<M1937>>>" ++ check (runes_of_ascii "
+packet 
+rootA 
+{@tag(
+    0123456789 
+)
+	options1
+
+    {	int32
+
+uint8x
+    `u8 x,`
+    ,
+u8x
+	//x
+// packet A { u8 x, }
+      {  match 
+Header
+
+as
+    metadata
+    { [
+10
+
+] 
+:	pack} ,	}  ,
+    f64	// `tick` ""quote"" 'q'
+	chars
+
+, 
+} ,
+	@lengthOf(
+    body )u64 
+        // @lengthOf(
+    //
+	Z9_  ,} 
+MetaData
+
+    repeatCount
+{
+zchar[10 ]
+
+string_ ,
+	f64
+
+A	,
+u32  BodyLength
+
+    ,zchar[
+
+    00
+    ]
+	uint8x
+,trueish leftPad
+	, char[65535]rootA
+, }  
+      //	t
+ 
+")).
+Eval vm_compute in ("<<<M1363>>>" ++ check (runes_of_ascii "options {
+    LittleEndian = true;
+    StringPrefixLenType = u64;
+    ArrayPrefixLenType = u16;
+    FixedStringPadFromLeft = false;
+    FixedStringPadChar = ' ';
+}
+packet Logon {
+    zchar[5] Side2,
+}
+root packet Logout {
+    repeat i64 Tail,
+    Logon,
+    repeat i16 OrderId,
+    char[] venue,
+    uint64 x,
+    repeat i16 count,
+    u8 Flags,
+    match Flags as Body {
+        25 : Logon,
+    },
+    u16 Qty @calculatedFrom(""CRC32""),
+}
+")).
+Eval vm_compute in ("<<<M292>>>" ++ check (runes_of_ascii "packet/// triple
+matchKey { float32 float,@calculatedFrom(""a\\""// " ++ [27880; 37322]%N ++ runes_of_ascii "
+) @rightPad
+( '\x00' )i16 tag  @calculatedFrom(""abc"" ) ,
+repeat zchar[255
+] pack
+    , @lengthOf( Z9_ ) tag , } // trailing space 
+root
+packet rootA { repeat metadata { Logon , }, @tag( 10)
+@lengthOf( A )
+@tag( 007)
+u32
+    options1, match float as u {0123456789 : u8x ,} ,	}// " ++ [27880; 37322]%N ++ runes_of_ascii "
+root packet lengthOf { }
+")).
+Eval vm_compute in ("<<<M1928>>>" ++ check (runes_of_ascii "// top
+MetaData Packet {
+}
+
+// c3
+packet charz {
+    // c6
+    Foo asx `it's`,// c10
+    @lengthOf(T)
+    @calculatedFrom("""")
+    @calculatedFrom(""x y"")
+    // c19
+    zchar[007] repeatCount @lengthOf(int) `a\`,// c28
+    i8 string_,// c31
+    repeat options1 Pad,// c35
+}// c36
+
+root packet Packet {
+    // c40
+    int8 float `doc`,// c44
+}// c45")).
+Eval vm_compute in ("<<<M1555>>>" ++ check (runes_of_ascii "
+options { LittleEndian 
+= false
+	; StringPrefixLenType=
+    u16  ;
+    }
+    packet
+Heartbeat { @rightPad(  '0'
+    )	char[ 7	]seqNo
+
+    ,  uint64
+
+    Tail
+    , i16  Flags ,
+	u16
+
+msgKind ,}root
+
+    packet
+	Reject
+    {
+	zchar[3
+	]tag7
+,repeat
+Heartbeat ,
+
+    repeat  string clOrdID
+,
+}
+
+")).
+Eval vm_compute in ("<<<M1437>>>" ++ check (runes_of_ascii "MetaData T {
+    uint8 float,
+    repeatCount x,
+    char[10] asx,
+    char[00] metadata `" ++ [233]%N ++ runes_of_ascii "`,
+    u8x asx,
+}
+
+MetaData trueish {
+    charz string_ `crlf
+        line`,
+    zchar[42] _x,
+}
+
+packet o {
+    char[] u8x @calculatedFrom(""abc""),
+}
+
+options {
+    x = 255;
+    u = '0'
+}")).
+Eval vm_compute in ("<<<M1375>>>" ++ check (runes_of_ascii "packet
+    Sub 
+{u8 a	, 
+@calculatedFrom(  ""CRC16""
+
+)
+	i32 SubSum 
+,
+}
+    root
 
 packet
-Q
+    Frame {
+u16 
+MsgType	,
+u16	BodyLen	@lengthOf(
+    Body) 
+, 
+Sub
+	Body	,
+string
+	note
+	,
 
-{
-zchar[ 4
+@calculatedFrom(""CRC16"" )
 
-]	z	,
-@rightPad
-
-( '\x00'
-
-    )
-
-    char[ 3
-    ]
-n
-, char[
-
-    5 ] d
-
+i32	Checksum  ,
+	u8 tail 
 ,
-	}
 
-    root packet
-    R  { Q
-,
-	zchar[
-    8
-]  top
-
-    ,
-	repeat
+}")).
+Eval vm_compute in ("<<<M18>>>" ++ check (runes_of_ascii "packet roots
+// a // b
+// " ++ [128512]%N ++ runes_of_ascii " emoji
+{ // " ++ [27880; 37322]%N ++ runes_of_ascii "
+@tag(0
+)
+    repeat // `tick` ""quote"" 'q'
 zchar[
-    2	]zs ,  } ")).
-Eval vm_compute in ("<<<M21>>>" ++ check (runes_of_ascii "packet  Logon //	t
-{pack	_x
-    ,
-Z9_ i8i8  `" ++ [28040; 24687; 31867; 22411]%N ++ runes_of_ascii "`	, } options
-    { tag	= 4294967296 ; As = string
-    ; rootA = true ; }root packet f32a { //x
-@leftPad
-// " ++ [27880; 37322]%N ++ runes_of_ascii "
-// c
-(' ') repeat _x`" ++ [233]%N ++ runes_of_ascii "`	, @rightPad ( )i8i8 len,}
+/// triple
+//x
+0
+]x , } options { As =""\" ++ [233]%N ++ runes_of_ascii """ ;pack = ' ' ; int = // `tick` ""quote"" 'q'
+'\x00' ; options1 =
+""`tick`"" ; }")).
+Eval vm_compute in ("<<<M1868>>>" ++ check (runes_of_ascii "  root packet
+    As	{ //
+	char  charz@lengthOf(	packetx)	`{ , }`
 
-")).
-Eval vm_compute in ("<<<M186>>>" ++ check (runes_of_ascii "root packet packetx	{	char[ 1 ]chars @calculatedFrom(
-""packet"" ) `say ""hi""` ,} options
-    // trailing space 
-    { asx
-    // a // b
-    = 65535 u = float64 repeatCount  =""\" ++ [233]%N ++ runes_of_ascii """}
-")).
-Eval vm_compute in ("<<<M60>>>" ++ check (runes_of_ascii "root packet _x
-{ uint32 trueish @calculatedFrom( ""1"" ) `crlf
-line`
-,  }
-    //
-    packet	Header { repeat u64
-stringy `// not a comment` , float32  msg_type ,}
+,	//
+
+char[ 0123456789 ]	MetaDataX
+	// " ++ [27880; 37322]%N ++ runes_of_ascii "
+      // `tick` ""quote"" 'q'
+`it's`,
+	zchar[
+
+7]
+
+o
+
+    `u8 x,` ,
+	} ")).
+Eval vm_compute in ("<<<M336>>>" ++ check (runes_of_ascii "
+packet msg_type
+{
+    zchar[ 65535
+    /// triple
+    ]stringy // `tick` ""quote"" 'q'
+@calculatedFrom( """ ++ [233]%N ++ runes_of_ascii "t" ++ [233]%N ++ runes_of_ascii """ )
+,@tag( 0
+) repeat i64_,
+}
+// packet A { u8 x, }
 ")).
 Eval vm_compute in ("<<<M537>>>" ++ check (runes_of_ascii "packet uint8x
 { match pack
@@ -885,10 +919,10 @@ a1
     { } o'\x01'ptions {packetx
     = '\x00'	; u128= ""a	b""  ; }
 ")).
-Eval vm_compute in ("<<<M401>>>" ++ check (runes_of_ascii "packet uint8x
-{ { match pack
+Eval vm_compute in ("<<<M436>>>" ++ check (runes_of_ascii "packet uint8x
+{ match pack
     as msg_type	{
-    0123456789 :	float
+    0123456789 : :	float
 }
 ,
 } packet //	t
@@ -896,264 +930,253 @@ a1
     { } options {packetx
     = '\x00'	; u128= ""a	b""  ; }
 ")).
-Eval vm_compute in ("<<<M541>>>" ++ check (runes_of_ascii "packet uint8x
-{ match pack
-    as msg_type	{
-    0123456789 :	float
-}
-,
-} packet //	t
-a1
-    { } options {packetx
-    = '\x0" ++ [233]%N ++ runes_of_ascii "0'	; u128= ""a	b""  ; }
-")).
-Eval vm_compute in ("<<<M498>>>" ++ check (runes_of_ascii "packet uint8x
-{ match pack
-    as msg_type	{
-    0123456789 :	float
-}
-,
-} packet //	t
-a1
-    { } options {packetx
-    ; '\x00'	; u128= ""a	b""  ; }
-")).
-Eval vm_compute in ("<<<M415>>>" ++ check (runes_of_ascii "packet uint8x
-{ match pack
-     msg_type	{
-    0123456789 :	float
-}
-,
-} packet //	t
-a1
-    { } options {packetx
-    = '\x00'	; u128= ""a	b""  ; }
-")).
-Eval vm_compute in ("<<<M665>>>" ++ check (runes_of_ascii "// @lengthOf(
-packet i8i8 { u128 o , }
-options { MetaDataX = true;
-    BodyLength =""packet"" x_y_z= 007
-crc //x
-= ""abc"" ; ;
-    msg_type =
-i16 }")).
-Eval vm_compute in ("<<<M648>>>" ++ check (runes_of_ascii "// @lengthOf(
-packet i8i8 { u128 o , }
-options { = MetaDataX true;
-    BodyLength =""packet"" x_y_z= 007
-crc //x
-= ""abc"" ;
-    msg_type =
-i16 }")).
-Eval vm_compute in ("<<<M1396>>>" ++ check (runes_of_ascii "packet A {
-    match k as n {
-        [
-            1, 22, 4, 5, 7,
-            8, 10, ""c c"", ""f"", ""i""
-        ] : B,
-        2 : C,
-    },
-}")).
-Eval vm_compute in ("<<<M659>>>" ++ check (runes_of_ascii "// @lengthOf(
-packet i8i8 { u128 o , }
-options { MetaDataX = true;
-    " ++ [21517; 23383]%N ++ runes_of_ascii " =""packet"" x_y_z= 007
-crc //x
-= ""abc"" ;
-    msg_type =
-i16 }")).
-Eval vm_compute in ("<<<M1918>>>" ++ check (runes_of_ascii "  packet A { 
-match
-
-k
-
-as
-
-    n
-
-    {[""a""
-,
-""bb""  , ""c c""  ,
-""d""	, 
-""e""
-
-    ,
-""f""	,
-
-    ""g"" ] : B
-
-2
-:
-	C }  ,} ")).
-Eval vm_compute in ("<<<M1601>>>" ++ check (runes_of_ascii "packet A {
+Eval vm_compute in ("<<<M1441>>>" ++ check (runes_of_ascii "packet A {
     Inner {
-        u8 x `
-        x`,
-        Deep {
-            u8 y `
-            x`,
+        match k as n {
+            [
+                1, 22, 007, 4, 5,
+                66
+            ] : B,
         },
     },
 }")).
-Eval vm_compute in ("<<<M1170>>>" ++ check (runes_of_ascii "MetaData leftPad { chars MetaDataX , } packet repeatCount { char[ 255 ] uint8x
-// c
-`" ++ [233]%N ++ runes_of_ascii "` , } MetaData pack { As Foo , }")).
-Eval vm_compute in ("<<<M1319>>>" ++ check (runes_of_ascii "
-packet FooBar  {  u8
-	a , }
-    packet  foo_bar
-
-    {  u16 
-b
-
-    , } root
-	packet R{FooBar , foo_bar
-,	}
+Eval vm_compute in ("<<<M517>>>" ++ check (runes_of_ascii "packet uint8x
+{ match pack
+    as msg_type	{
+    0123456789 :	float
+}
+,
+} packet //	t
+a1
+    { } options {packetx
+    = '\x00'	; u128""a	b"" =  ; }
 ")).
-Eval vm_compute in ("<<<M881>>>" ++ check (runes_of_ascii "packet A {
-  match k as n {
-    [""a"", ""bb"", ""c c"", ""d"", ""e"", ""f"", ""g"", ""h"", ""i"", ""j""] : B
-    2 : C
-  },
-}")).
-Eval vm_compute in ("<<<M683>>>" ++ check (runes_of_ascii "// @lengthOf(
+Eval vm_compute in ("<<<M503>>>" ++ check (runes_of_ascii "packet uint8x
+{ match pack
+    as msg_type	{
+    0123456789 :	float
+}
+,
+} packet //	t
+a1
+    { } options {packetx
+    = char	; u128= ""a	b""  ; }
+")).
+Eval vm_compute in ("<<<M691>>>" ++ check (runes_of_ascii "// @lengthOf(
+packet i8i8 { u128 o , }
+options f64 MetaDataX = true;
+    BodyLength =""packet"" x_y_z= 007
+crc //x
+= ""abc"" ;
+    msg_type =
+i16 }")).
+Eval vm_compute in ("<<<M694>>>" ++ check (runes_of_ascii "// @lengthOf(
 packet i8i8 { u128 o , }
 options { MetaDataX = true;
-    BodyLength =""packet"" x_y_z= 007")).
-Eval vm_compute in ("<<<M882>>>" ++ check (runes_of_ascii "packet A {
-  match k as n {
-    [1, ""bb"", 007, ""d"", 5, ""f"", 7, ""h"", 9, ""j""] : B,
-    2 : C
-  },
-}")).
-Eval vm_compute in ("<<<M558>>>" ++ check (runes_of_ascii "
-packet
-    asx asx {match u128 as lengthOf
+    = BodyLength""packet"" x_y_z= 007
+crc //x
+= ""abc"" ;
+    msg_type =
+i16 }")).
+Eval vm_compute in ("<<<M1263>>>" ++ check (runes_of_ascii "
+packet B {u8 
+a ,
+}  root	packet P
 {
-//	t
-// `tick` ""quote"" 'q'
-255 : x ,
-    } ,	}")).
-Eval vm_compute in ("<<<M645>>>" ++ check (runes_of_ascii "
-packet
-    asx {match u128 as lengthOf
-{
-//	t
-// `tick` ""quote"" 'q'
-255 : a" ++ [769]%N ++ runes_of_ascii "b ,
-    } ,	}")).
-Eval vm_compute in ("<<<M604>>>" ++ check (runes_of_ascii "
-packet
-    asx {match u128 as lengthOf
-{
-//	t
-// `tick` ""quote"" 'q'
-255 : , x
-    } ,	}")).
-Eval vm_compute in ("<<<M1415>>>" ++ check (runes_of_ascii "options {
-    Z9_ = '\x00'
-}
 
-packet trueish {
-    // " ++ [128512]%N ++ runes_of_ascii " emoji
-    u16 calculatedFrom,
-}")).
-Eval vm_compute in ("<<<M1725>>>" ++ check (runes_of_ascii "packet order_item {
+    u8
+K, 
+u64	L
+@lengthOf(
+
+Body
+)	, match
+    K
+as
+
+    Body
+{ 1
+
+    : 
+B
+
+,
+}	, }
+
+")).
+Eval vm_compute in ("<<<M1270>>>" ++ check (runes_of_ascii "options {
+    LittleEndian = true;
+}
+packet B {
     u8 a,
+    string s,
 }
+root packet P {
+    u16 L @lengthOf(B),
+    B,
+    u8 t,
+}
+")).
+Eval vm_compute in ("<<<M504>>>" ++ check (runes_of_ascii "packet uint8x
+{ match pack
+    as msg_type	{
+    0123456789 :	float
+}
+,
+} packet //	t
+a1
+    { } options {packetx
+    =")).
+Eval vm_compute in ("<<<M1154>>>" ++ check (runes_of_ascii "MetaData leftPad { chars MetaDataX ,
+// c
+} packet repeatCount { char[ 255 ] uint8x `" ++ [233]%N ++ runes_of_ascii "` , } MetaData pack { As Foo , }")).
+Eval vm_compute in ("<<<M1186>>>" ++ check (runes_of_ascii "MetaData leftPad { chars MetaDataX , } packet repeatCount { char[ 255 ] uint8x `" ++ [233]%N ++ runes_of_ascii "` , } MetaData pack { As Foo
+// c
+, }")).
+Eval vm_compute in ("<<<M239>>>" ++ check (runes_of_ascii "options { lengthOf =3
+trueish
+// packet A { u8 x, }
+// trailing space 
+=
+    true
+; calculatedFrom =
+007;} 	 ")).
+Eval vm_compute in ("<<<M1797>>>" ++ check (runes_of_ascii "  packet	A { match  k as
+	n{  [
+    ""a""
+    ,
+22 
+,
 
-root packet new_order {
-    order_item,
-    u8 x,
+    ""c c"",
+    4	, ""e""
+    ] :B 2
+    :
+C}
+,  }
+")).
+Eval vm_compute in ("<<<M920>>>" ++ check (runes_of_ascii "packet A {
+    Inner {
+        u8 x `a
+b`,
+        Deep {
+            u8 y `a
+b`,
+        },
+    },
 }")).
-Eval vm_compute in ("<<<M616>>>" ++ check (runes_of_ascii "
+Eval vm_compute in ("<<<M904>>>" ++ check (runes_of_ascii "packet A {
+  match k as n {
+    [1, 22, 007, 4, 5, 66, 7, 8, 9, 10, 11, 12] : B,
+    2 : C
+  },
+}")).
+Eval vm_compute in ("<<<M887>>>" ++ check (runes_of_ascii "packet A {
+  match k as n {
+    [1, 22, ""c c"", 4, 5, ""f"", 7, 8, ""i"", 10] : B
+    2 : C
+  },
+}")).
+Eval vm_compute in ("<<<M870>>>" ++ check (runes_of_ascii "packet A {
+  match k as n {
+    [1, ""bb"", 007, ""d"", 5, ""f"", 7, ""h"", 9] : B
+    2 : C
+  },
+}")).
+Eval vm_compute in ("<<<M859>>>" ++ check (runes_of_ascii "packet A {
+  match k as n {
+    [""a"", 22, ""c c"", 4, ""e"", 66, ""g"", 8] : B
+    2 : C
+  },
+}")).
+Eval vm_compute in ("<<<M592>>>" ++ check (runes_of_ascii "
 packet
     asx {match u128 as lengthOf
 {
 //	t
 // `tick` ""quote"" 'q'
-255 : x ,")).
-Eval vm_compute in ("<<<M1609>>>" ++ check (runes_of_ascii "  packet A
-	{  match
-    k
-	as
-    n
-{ [
-""a""
-	,	22 ] :
-	B
-	,  2 :	C}
-, }
-
-")).
-Eval vm_compute in ("<<<M813>>>" ++ check (runes_of_ascii "packet A {
+ : x ,
+    } ,	}")).
+Eval vm_compute in ("<<<M647>>>" ++ check (runes_of_ascii "// @lengthOf(
+packet i8i8 { u128 o , }
+options { MetaDataX = true;
+    BodyLength =")).
+Eval vm_compute in ("<<<M834>>>" ++ check (runes_of_ascii "packet A {
   match k as n {
-    [1, 22, 007, 4, 5] : B,
+    [1, 22, ""c c"", 4, 5, ""f""] : B,
     2 : C
   },
 }")).
-Eval vm_compute in ("<<<M1765>>>" ++ check (runes_of_ascii "MetaData x_y_z {
-    i8i8 u8x,
-    string uint8x `crlf
-    line`,
-}")).
-Eval vm_compute in ("<<<M782>>>" ++ check (runes_of_ascii "packet A {
-  match k as n {
-    [1, ""bb""] : B,
-    2 : C
-  },
-}")).
-Eval vm_compute in ("<<<M1468>>>" ++ check (runes_of_ascii "  root packet
-
-    P 
-{ hdr	{ u8
-	a  ,
-}
-	,
-	u8
-
-x ,
-    }")).
-Eval vm_compute in ("<<<M1070>>>" ++ check (runes_of_ascii "packet A { match k as n { 1 : B // a // b 2 : C }, }")).
-Eval vm_compute in ("<<<M1212>>>" ++ check (runes_of_ascii "packet body { i32 f32a `{ , }` ,
-// c
-} options { }")).
-Eval vm_compute in ("<<<M1453>>>" ++ check (runes_of_ascii "options {
-    // " ++ [128512]%N ++ runes_of_ascii " emoji
-    Packet = char[3]
-}")).
-Eval vm_compute in ("<<<M31>>>" ++ check (runes_of_ascii "options {
-x=
-""{,}""
-matchKey=  true	; }
-")).
-Eval vm_compute in ("<<<M1081>>>" ++ check (runes_of_ascii "options { a = 1; // a
- b = 2 // b
- }")).
-Eval vm_compute in ("<<<M1926>>>" ++ check (runes_of_ascii "packet A {
-    repeat B b `d`,
-}")).
-Eval vm_compute in ("<<<M1705>>>" ++ check (runes_of_ascii "
-
-  packet
-    A{} // a
-
-// b
-")).
-Eval vm_compute in ("<<<M338>>>" ++ check (runes_of_ascii "root packet
-msg_type { }
-")).
-Eval vm_compute in ("<<<M51>>>" ++ check (runes_of_ascii "options {} // " ++ [128512]%N ++ runes_of_ascii " emoji")).
-Eval vm_compute in ("<<<M1041>>>" ++ check (runes_of_ascii "packet A {
-}
-// c 	")).
-Eval vm_compute in ("<<<M1016>>>" ++ check (runes_of_ascii "packet A {
-}
-// c" ++ [8233]%N)).
-Eval vm_compute in ("<<<M984>>>" ++ check (runes_of_ascii "packet A {
-}// c" ++ [160]%N)).
-Eval vm_compute in ("<<<M566>>>" ++ check (runes_of_ascii "
+Eval vm_compute in ("<<<M606>>>" ++ check (runes_of_ascii "
 packet
-    asx")).
-Eval vm_compute in ("<<<M1060>>>" ++ check (runes_of_ascii "// c x")).
-Eval vm_compute in ("<<<M730>>>" ++ check (runes_of_ascii "//")).
+    asx {match u128 as lengthOf
+{
+//	t
+// `tick` ""quote"" 'q'
+255 :")).
+Eval vm_compute in ("<<<M1099>>>" ++ check (runes_of_ascii "packet A {
+    match k as n {
+        1 : B // c
+        , // d
+    },
+}")).
+Eval vm_compute in ("<<<M739>>>" ++ check (runes_of_ascii "zchar[ i64 @calculatedFrom( match false ) Header char[ @lengthOf( :")).
+Eval vm_compute in ("<<<M918>>>" ++ check (runes_of_ascii "packet A {
+    B b `a
+b`,
+    B `a
+b`,
+    repeat B bs `a
+b`,
+}")).
+Eval vm_compute in ("<<<M812>>>" ++ check (runes_of_ascii "packet A { Inner { match k as n { [1,22,007,4] : B, }, }, }")).
+Eval vm_compute in ("<<<M1485>>>" ++ check (runes_of_ascii "packet A {
+    match k as n {
+        1 : B,
+    },
+}")).
+Eval vm_compute in ("<<<M332>>>" ++ check (runes_of_ascii "MetaData o
+    { } MetaData T  {
+    } options { }")).
+Eval vm_compute in ("<<<M763>>>" ++ check (runes_of_ascii "@calculatedFrom( true ; MetaData """ ++ [233]%N ++ runes_of_ascii "t" ++ [233]%N ++ runes_of_ascii """ match")).
+Eval vm_compute in ("<<<M1240>>>" ++ check (runes_of_ascii "root packet P {
+    char c,
+    u8 x,
+}
+")).
+Eval vm_compute in ("<<<M1646>>>" ++ check (runes_of_ascii "packet A {
+    u8 x `
+        x`,
+}")).
+Eval vm_compute in ("<<<M934>>>" ++ check (runes_of_ascii "root packet A {
+    u8 x `
+`,
+}")).
+Eval vm_compute in ("<<<M1725>>>" ++ check (runes_of_ascii "  // c" ++ [8233]%N ++ runes_of_ascii "
+packet
+    A 
+{ 
+}
+
+")).
+Eval vm_compute in ("<<<M1775>>>" ++ check (runes_of_ascii "  packet
+A
+
+{} // c" ++ [6158]%N ++ runes_of_ascii "
+ 
+")).
+Eval vm_compute in ("<<<M1103>>>" ++ check (runes_of_ascii "// c
+MetaData tag { }")).
+Eval vm_compute in ("<<<M1134>>>" ++ check (runes_of_ascii "MetaData u { // c
+}")).
+Eval vm_compute in ("<<<M1032>>>" ++ check (runes_of_ascii "// c" ++ [11]%N ++ runes_of_ascii "
+packet A {
+}")).
+Eval vm_compute in ("<<<M1019>>>" ++ check (runes_of_ascii "packet A {
+}// c" ++ [8239]%N)).
+Eval vm_compute in ("<<<M712>>>" ++ check (runes_of_ascii "// @lengthOf(
+")).
+Eval vm_compute in ("<<<M1579>>>" ++ check (runes_of_ascii "
+//
+")).
+Eval vm_compute in ("<<<M769>>>" ++ check ([12]%N ++ runes_of_ascii "7" ++ [30]%N)).
